@@ -257,8 +257,7 @@ impl McnkChunk {
             let refs_pos = mcnk_start_offset + u64::from(header.ofs_refs);
             reader.seek(SeekFrom::Start(refs_pos))?;
             let first = ChunkHeader::read_le(reader)?;
-            let mut data = vec![0u8; first.size as usize];
-            reader.read_exact(&mut data)?;
+            let data = crate::chunk_header::read_exact_vec(reader, first.size as usize)?;
             if first.id == ChunkId::MCRD {
                 if !data.is_empty() {
                     doodad_refs = Some(McrdChunk::read_le(&mut std::io::Cursor::new(data))?);
@@ -269,8 +268,8 @@ impl McnkChunk {
                     reader.seek(SeekFrom::Start(next_pos))?;
                     if let Ok(next) = ChunkHeader::read_le(reader) {
                         if next.id == ChunkId::MCRW && next.size > 0 {
-                            let mut data = vec![0u8; next.size as usize];
-                            reader.read_exact(&mut data)?;
+                            let data =
+                                crate::chunk_header::read_exact_vec(reader, next.size as usize)?;
                             wmo_refs = Some(McrwChunk::read_le(&mut std::io::Cursor::new(data))?);
                         }
                     }
@@ -374,8 +373,10 @@ impl McnkChunk {
             // Read the actual data using size_liquid from MCNK header.
             // size_liquid counts the 8-byte sub-chunk header as well (a chunk without
             // liquid carries size_liquid == 8), so the payload is 8 bytes shorter.
-            let mut data = vec![0u8; (header.size_liquid as usize).saturating_sub(8)];
-            reader.read_exact(&mut data)?;
+            let data = crate::chunk_header::read_exact_vec(
+                reader,
+                (header.size_liquid as usize).saturating_sub(8),
+            )?;
 
             if !data.is_empty() {
                 // Pass MCNK flags to MCLQ parser for liquid type detection
@@ -517,8 +518,7 @@ fn read_subchunk<R: Read + Seek>(
     })?;
 
     // Read subchunk data
-    let mut data = vec![0u8; subchunk_header.size as usize];
-    reader.read_exact(&mut data)?;
+    let data = crate::chunk_header::read_exact_vec(reader, subchunk_header.size as usize)?;
 
     Ok(data)
 }
@@ -587,8 +587,7 @@ fn read_subchunk_with_size<R: Read + Seek>(
     }
 
     // Read subchunk data using the expected size
-    let mut data = vec![0u8; expected_size as usize];
-    reader.read_exact(&mut data)?;
+    let data = crate::chunk_header::read_exact_vec(reader, expected_size as usize)?;
 
     Ok(data)
 }
@@ -628,8 +627,7 @@ fn scan_for_subchunk<R: Read + Seek>(
 
         if subchunk_header.id == target_id {
             // Found it! Read the data
-            let mut data = vec![0u8; subchunk_header.size as usize];
-            reader.read_exact(&mut data)?;
+            let data = crate::chunk_header::read_exact_vec(reader, subchunk_header.size as usize)?;
             return Ok(data);
         }
 
